@@ -4,8 +4,8 @@ import os
 VERIF = os.path.dirname(os.path.dirname(os.path.dirname(os.path.abspath(__file__))))
 SPEC = os.path.join(VERIF, 'spec')
 WORK = os.path.join(VERIF, '.work')
-EVIDENCE = os.path.join(VERIF, 'evidence')
-REPLAY = os.path.join(VERIF, 'replay')
+EVIDENCE = os.environ.get('VERIF_EVIDENCE_DIR', os.path.join(VERIF, 'evidence'))
+REPLAY = os.environ.get('VERIF_REPLAY_DIR', os.path.join(VERIF, 'replay'))
 KNOWN = os.path.join(VERIF, 'known_findings.json')
 REPO = os.environ.get('VERIF_REPO', '/repo')
 HOOK_GUARD = 'PY_STRINGSIMJOIN_VERIF'
